@@ -150,12 +150,13 @@ def explore_setting(acc, gen, kwargs, promise, pretty, policy, bound, cap):
         if status == "raise":
             core = f"generator-raises:{type(val).__name__}|{gen}|{str(val)[:60]}"
             acc.violation(core, {"kind": "gen", "gen": gen, "kwargs": kwargs, "pretty": pretty, "policy": policy,
-                                 "choices": [t[2] for t in orc.trace]}, f"{describe(gen, kwargs, pretty)}: {val!r}"[:300])
+                                 "choices": [t[2] for t in orc.trace], "bound": bound, "cap": cap}, f"{describe(gen, kwargs, pretty)}: {val!r}"[:300])
         else:
             acc.key(hash(val[0]) if isinstance(val, tuple) else 0)
             for kind, detail in judge_problem(val, promise):
                 acc.violation(f"{kind}|{gen}", {"kind": "gen", "gen": gen, "kwargs": kwargs, "pretty": pretty, "policy": policy,
-                                                "choices": [t[2] for t in orc.trace]}, f"{describe(gen, kwargs, pretty)}: {detail}")
+                                                "choices": [t[2] for t in orc.trace], "bound": bound, "cap": cap},
+                              f"{describe(gen, kwargs, pretty)}: {detail}")
             if acc.n["executions"] % 3000 == 1:
                 acc.sample({"call": describe(gen, kwargs, pretty), "policy": policy, "choices": [t[2] for t in orc.trace][:40],
                             "output": val[0]})
@@ -284,7 +285,8 @@ def run(tier, seed):
     tasks += [("conf", list(range(s, K, 16))) for s in range(16)]
     k = seed % len(tasks)
     tasks = tasks[k:] + tasks[:k]
-    acc = merge_all(par.pmap(_work, tasks))
+    # one freshly forked process per task: module-level state of the generators depends only on the task
+    acc = merge_all(par.pmap(_work, tasks, fresh=True))
     cov = {
         "states": acc.n["executions"],
         "transitions": acc.n["choice_points"],
@@ -306,7 +308,30 @@ def run(tier, seed):
                       "answer values strictly inside the abstracted ranges are not explored"]
 
 
+def _reexplore_setting(case):
+    acc = Acc()
+    promise = next((p for g, kw, p in settings("quick") if g == case["gen"] and kw == case["kwargs"]), False)
+    explore_setting(acc, case["gen"], case["kwargs"], promise, case["pretty"], case["policy"], case.get("bound", 1), case.get("cap", 4000))
+    return acc
+
+
 def replay(case):
+    """the recorded execution on its own; if it does not reproduce (module-level state left behind by earlier
+    executions of the same setting), the whole setting is re-explored in a freshly forked process"""
+    want = case.get("_core")
+    got = _replay_direct(case)
+    if got and (want is None or any(c == want for c, _ in got)):
+        return got
+    if case.get("kind") == "gen":
+        a = par.run_fresh(_reexplore_setting, case)
+        again = [(c, e["examples"][0]["detail"]) for c, e in a.viol.items()]
+        if want is not None and any(c == want for c, _ in again):
+            return [(c, d) for c, d in again if c == want]
+        return again or got
+    return got
+
+
+def _replay_direct(case):
     from mathy_core import problems as P
 
     k = case["kind"]
